@@ -29,8 +29,10 @@ VERIF = Path(__file__).resolve().parents[1]
 REPO = Path(os.environ.get("REDUINO_REPO", "/repo"))
 COQ = VERIF / "coq"
 BUILD = VERIF / "build"
-EVID = VERIF / "evidence"
-REPLAYS = BUILD / "replays"
+# evidence/ describes runs against /repo itself; a run against a scratch copy (REDUINO_REPO=..., used to try
+# the checks on seeded changes) must not overwrite it
+EVID = VERIF / "evidence" if str(REPO) == "/repo" else BUILD / "evidence-scratch"
+REPLAYS = BUILD / "replays" if str(REPO) == "/repo" else BUILD / "replays-scratch"
 PY = "/venv/bin/python"
 NPROC = os.cpu_count() or 4
 
@@ -501,7 +503,7 @@ class Ctx:
     # ---- verdict
     def finish(self, level="proof"):
         REPLAYS.mkdir(parents=True, exist_ok=True)
-        EVID.mkdir(exist_ok=True)
+        EVID.mkdir(parents=True, exist_ok=True)
         out_lines = []
         violations = 0
         for l in self.known_lines:
